@@ -59,6 +59,7 @@ Spec == Init /\ [][Next]_<<S, roots, keep, acc>>
 
 T == [entries |-> [x \in S |-> Universe[x]], names |-> Names, roots |-> roots,
       walk |-> roots, walkT |-> [i \in 1..Len(roots) |-> FALSE], keep |-> keep,
+      rootPkg |-> [i \in 1..Len(roots) |-> ""], walkPkg |-> [i \in 1..Len(roots) |-> ""],
       mpats |-> <<[neg |-> FALSE]>>,
       mmatch |-> [f \in S |-> [r \in {"", "sub"} |-> <<IF r = "sub" THEN acc ELSE TRUE>>]]]
 
